@@ -227,6 +227,7 @@ with exec (P : prog) (fuel : nat) (en : env) (s : stmt) {struct fuel} : out sres
   | S f =>
     match s with
     | SAssign x e => obind (eval P f en e) (fun v => Val (Normal (update en x v)))
+    | SDef x e => obind (eval P f en e) (fun v => Val (Normal (update en x v)))
     | SDecl x _ e => obind (eval P f en e) (fun v => Val (Normal (update en x v)))
     | SIf c s1 s2 => obind (eval P f en c) (fun v => if truthy v then exec P f en s1 else exec P f en s2)
     | SWhile c b =>
